@@ -385,7 +385,7 @@ pub fn c12_history(h: &History, rep: &mut Report) {
 }
 
 pub fn work_c12(ctx: &Ctx, rep: &mut Report) {
-    let prof = Profile::general().with(T_RIS, 1).with(T_MALFORMED, 3).with(T_STR, 4).with(T_SOUP, 3).resizes(0).length((1, 1), (2, 14));
+    let prof = Profile::general().with(T_RIS, 1).with(T_MALFORMED, 3).with(T_STR, 4).with(T_SOUP, 3).resizes(0).length((1, 1), (2, 14)).huge(4);
     let n = ctx.scale(100_000, 5_000_000);
     for u in ctx.units(n) {
         let mut r = Rng::derive(ctx.seed, &[0xC12, 1, u as u64]);
@@ -400,6 +400,8 @@ pub fn work_c12(ctx: &Ctx, rep: &mut Report) {
     let shorts: Vec<&str> = vec![
         "ab\x1b[1;31mc", "\x1b[2;3Hxy", "a\x1b]0;t\x07b", "\x1b[38:2:1:2:3mz", "abcd\r\nef", "\x1b[?1049hq\x1b[?1049l", "\u{9b}2;2r\x1bMx", "\x1bP1$q\x1b\\k",
         "ab\x1b[2bcd", "\x1b(0qx\x1b(Bq", "\x1b[?6h\x1b[3;1Hx", "\x1b7\x1b[5Cz\x1b8w",
+        // a number beyond 32 bits, cut between any two of its digits
+        "abc\x1b[4294967298Dx", "q\x1b[4294967299b",
     ];
     let total: usize = shorts.iter().map(|s| 1usize << (s.chars().count() - 1)).sum();
     let mut base = 0usize;
